@@ -31,6 +31,22 @@ P63 = "probe_long_" + "x" * 52
 LONG_SYMS = {"long63": P63, "long70": P63 + "yyyyyyy", "long71": P63 + "zzzzzzzz", "long_absent64": P63 + "q"}
 
 
+def own(path):
+    """A copy of a probe library that belongs to this worker alone (made once per worker): two workers never open the same
+    library file, so whatever a process does to the file it loads (locks, descriptors) cannot reach another worker's case."""
+    import shutil
+    d = os.path.join(core.worker_dir(), ".probes")
+    os.makedirs(d, exist_ok=True)
+    stt = os.stat(path)
+    dst = os.path.join(d, "%s-%d-%d.so" % (os.path.basename(os.path.dirname(os.path.dirname(path))), stt.st_size, int(stt.st_mtime)))
+    if not os.path.exists(dst):
+        tmp = dst + ".tmp%d" % os.getpid()
+        shutil.copyfile(path, tmp)
+        os.chmod(tmp, 0o755)
+        os.replace(tmp, dst)
+    return dst
+
+
 def real_sym(sym):
     return LONG_SYMS.get(sym, sym)
 
@@ -54,7 +70,17 @@ def hrb_quote(s):
     return '"%s"' % out
 
 
+ABS_WORLD = [None]      # set while the program of a case that starts in a removed directory is built
+
+
 def lib_path(lib):
+    p = _lib_path(lib)
+    if ABS_WORLD[0] and p.startswith("./"):
+        return ABS_WORLD[0] + p[1:]
+    return p
+
+
+def _lib_path(lib):
     return {"a": "./lib/libprobe_a.so", "b": "./lib/libprobe_b.so", "missing": "./lib/nonexistent_probe.so",
             "bare": "libprobe_bare.so",
             # a backslash is an ordinary file-name character here: this file exists, ...
@@ -80,8 +106,8 @@ def build_program(case):
     if case.get("nested"):
         sym = case["nested"]["sym"]
         L += ["function cb", '\targ "0"', '\tstore "x"', '\tload "x"',
-              "\tcall_lib %s %s" % (hrb_quote("./lib/libprobe_a.so"), sym), "\tret", "end"]
-    pre = "progs/" if case.get("start") == "parent" else ""
+              "\tcall_lib %s %s" % (hrb_quote(lib_path("a")), sym), "\tret", "end"]
+    pre = "progs/" if case.get("start") == "parent" else ((ABS_WORLD[0] + "/") if ABS_WORLD[0] else "")
     depth = case.get("depth", 0)
     # the calls run `depth` frames below the module: a chain of functions d1 .. d<depth>, the last one calling `body`
     L.append("function body" if depth else "function __module__")
@@ -185,9 +211,56 @@ def mk_plan(rng, benign):
     return plan
 
 
+def gen_twins(tier, seed):
+    """Two mscript processes call into the same library: the first is stopped at its k-th write to stdout — several of which
+    happen INSIDE a foreign function (probe_none prints what it received) — the second runs the same program from start to
+    end, the first goes on.  Both must deliver every call."""
+    n = 0
+    for k in (range(1, 13) if tier == "quick" else range(1, 25)):
+        rng = Rng(derive(seed, PROP, "twins", k))
+        calls = [{"lib": "a", "sym": "probe_none",
+                  "args": [(kk, rng.below(len(VALUES[kk]))) for kk in [rng.choice(KINDS) for _ in range(rng.range(1, 3))]]} for _ in range(3)]
+        yield {"prop": PROP, "id": "w%d" % n, "batch": "twins", "calls": calls, "plan": {"seed": rng.hexbytes(16), "rules": []}, "gc": None,
+               "stall": {"call": "write", "nth": k}, "seed_b": rng.hexbytes(16)}
+        n += 1
+
+
+def run_twins(case):
+    text, exp, fail = build_program(case)
+    world = core.fresh_world({"main.transpiled.mmm": text})
+    os.mkdir(os.path.join(world, "lib"))
+    os.symlink(own(PROBE_A), os.path.join(world, "lib", "libprobe_a.so"))
+    os.symlink(own(PROBE_B), os.path.join(world, "lib", "libprobe_b.so"))
+    t = core.run_cmd(world, ["transpile", "main.transpiled.mmm"], plan={"seed": case["plan"]["seed"], "rules": []})
+    rule = {"id": "st", "call": "write", "pat": "<stdout>", "nth": str(case["stall"]["nth"]), "act": "stall"}
+    res = {}
+
+    def b_runs():
+        res["b"] = core.run_cmd(world, ["execute", "main.mmm"], plan={"seed": case["seed_b"], "rules": []})
+
+    a = core.run_cmd(world, ["execute", "main.mmm"], plan={"seed": case["plan"]["seed"], "rules": [rule]}, during=b_runs)
+    procs = [t, a] + ([res["b"]] if res.get("b") else [])
+    st = core.stats_of(procs, [[rule]] * len(procs))
+    st["hash_seeds"] = [case["plan"]["seed"], case["seed_b"]]
+    st["shape"] = core.shape_hash("twins", case["stall"], [(c["lib"], c["sym"], c["args"]) for c in case["calls"]])
+    st["nontrivial"] = True
+    st["sample"] = {"stall": case["stall"], "calls": [(c["lib"], c["sym"]) for c in case["calls"]]}
+    inside = any(e["call"] == "stall-write" for e in a["events"])
+    st["probes"] = {"second_process_ran_while_first_was_stopped": 1} if a.get("stalled") else {"stall_point_beyond_the_end_of_the_process": 1}
+    want = "\n".join(exp) + "\n"
+    for who, p in (("first", a), ("second", res.get("b"))):
+        if p is None or p["timeout"] or p["rc"] != 0 or core.text(p["out"]) != want:
+            return {"ok": False, "class": "twin-interference", "stats": st,
+                    "msg": "the %s of two processes calling into the same library ended with rc=%s: %s" % (
+                        who, None if p is None else p["rc"], None if p is None else core.text(p["err"])[-300:]),
+                    "detail": {"bytecode": text, "expected_stdout": exp, "stdout": None if p is None else core.text(p["out"])[-1500:]}}
+    return {"ok": True, "stats": st}
+
+
 def gen_cases(tier, seed):
     quick = tier == "quick"
     n = 0
+    yield from gen_twins(tier, seed)
     base_rng = Rng(derive(seed, PROP, "base"))
     # 1. exhaustive: every kind vector of length <= 3 (one representative value per kind, rotated), echo form;
     #    packed 3 calls per program to save processes
@@ -251,9 +324,12 @@ def gen_cases(tier, seed):
                 "gc": "%d:%d" % (rng.below(1 << 20), rng.choice([10000, 100000, 1000000])) if rng.chance(1, 2) else None,
                 "ret_mod": rng.chance(1, 2)}
         if rng.chance(1, 4):
-            # the bytecode file lives in a sub-directory and the command is started one level above it: library names
+            # (see below) the bytecode file lives in a sub-directory and the command is started one level above it: library names
             # are still relative to the directory the command was started in (look-alikes sit next to the file)
             case["start"] = "parent"
+        elif rng.chance(1, 8):
+            # the command is started in a directory that has been removed since; bytecode and libraries are named absolutely
+            case["start"] = "gone"
         if rng.chance(1, 6):
             case["vars"] = {"RUST_BACKTRACE": "1"}
         if rng.chance(1, 3):
@@ -269,28 +345,39 @@ def gen_cases(tier, seed):
 # ------------------------------------------------------------------- execution
 
 def run_case(case):
-    text, exp, fail = build_program(case)
+    if case.get("batch") == "twins":
+        return run_twins(case)
+    gone = case.get("start") == "gone"
+    world = core.fresh_world({})
+    ABS_WORLD[0] = world if gone else None
+    try:
+        text, exp, fail = build_program(case)
+    finally:
+        ABS_WORLD[0] = None
     pre = "progs/" if case.get("start") == "parent" else ""
-    world = core.fresh_world({pre + "main.transpiled.mmm": text})
+    os.makedirs(os.path.join(world, "progs"), exist_ok=True) if pre else None
+    with open(os.path.join(world, pre + "main.transpiled.mmm"), "w") as f:
+        f.write(text)
     os.mkdir(os.path.join(world, "lib"))
     if pre:
         # decoys next to the bytecode file: the other probe under the first library's name, and a file where the missing
         # library would be
         os.mkdir(os.path.join(world, "progs", "lib"))
-        os.symlink(PROBE_B, os.path.join(world, "progs", "lib", "libprobe_a.so"))
-        os.symlink(PROBE_A, os.path.join(world, "progs", "lib", "libprobe_b.so"))
-        os.symlink(PROBE_A, os.path.join(world, "progs", "lib", "nonexistent_probe.so"))
-    os.symlink(PROBE_A, os.path.join(world, "lib", "libprobe_a.so"))
-    os.symlink(PROBE_B, os.path.join(world, "lib", "libprobe_b.so"))
-    os.symlink(PROBE_B, os.path.join(world, "lib", "plug\\libprobe.so"))
-    os.symlink(PROBE_B, os.path.join(world, "lib", "libprobe_v.so.1"))
-    os.symlink(PROBE_L, os.path.join(world, "lib", "libprobe_l.so"))
+        os.symlink(own(PROBE_B), os.path.join(world, "progs", "lib", "libprobe_a.so"))
+        os.symlink(own(PROBE_A), os.path.join(world, "progs", "lib", "libprobe_b.so"))
+        os.symlink(own(PROBE_A), os.path.join(world, "progs", "lib", "nonexistent_probe.so"))
+    os.symlink(own(PROBE_A), os.path.join(world, "lib", "libprobe_a.so"))
+    os.symlink(own(PROBE_B), os.path.join(world, "lib", "libprobe_b.so"))
+    os.symlink(own(PROBE_B), os.path.join(world, "lib", "plug\\libprobe.so"))
+    os.symlink(own(PROBE_B), os.path.join(world, "lib", "libprobe_v.so.1"))
+    os.symlink(own(PROBE_L), os.path.join(world, "lib", "libprobe_l.so"))
     os.makedirs(os.path.join(world, "lib", "vendor"))
-    os.symlink(PROBE_A, os.path.join(world, "lib", "vendor", "nolib.so"))      # the look-alike decoy
+    os.symlink(own(PROBE_A), os.path.join(world, "lib", "vendor", "nolib.so"))      # the look-alike decoy
     os.mkdir(os.path.join(world, "search"))
-    os.symlink(PROBE_A, os.path.join(world, "search", "libprobe_bare.so"))
+    os.symlink(own(PROBE_A), os.path.join(world, "search", "libprobe_bare.so"))
     plan = case["plan"]
-    t = core.run_cmd(world, ["transpile", pre + "main.transpiled.mmm"], plan={"seed": plan["seed"], "rules": []})
+    apre = (world + "/") if gone else pre
+    t = core.run_cmd(world, ["transpile", apre + "main.transpiled.mmm"], plan={"seed": plan["seed"], "rules": []}, gone_cwd=gone)
     procs = [t]
     st = None
 
@@ -309,6 +396,8 @@ def run_case(case):
             pr["call_lib_inside_list_callback"] = 1
         if case.get("start") == "parent":
             pr["started_outside_the_bytecode_directory"] = 1
+        if case.get("start") == "gone":
+            pr["started_in_a_removed_directory"] = 1
         if case.get("vars"):
             pr["environment_variable_RUST_BACKTRACE"] = 1
         if case.get("depth", 0) >= 13 and fail:
@@ -333,7 +422,7 @@ def run_case(case):
         return failr("transpile-failed", "transpile rejected the hand-written bytecode: %s" % core.text(t["err"])[-300:], t)
     xenv = {"LD_LIBRARY_PATH": os.path.join(world, "search")}
     xenv.update(case.get("vars") or {})
-    e = core.run_cmd(world, ["execute", pre + "main.mmm"], plan=plan, gc=case.get("gc"), extra_env=xenv)
+    e = core.run_cmd(world, ["execute", apre + "main.mmm"], plan=plan, gc=case.get("gc"), extra_env=xenv, gone_cwd=gone)
     procs.append(e)
     out = core.text(e["out"])
     lines = out.split("\n")
@@ -365,6 +454,8 @@ def run_case(case):
 
 
 def shrink(case):
+    if case.get("batch") == "twins":
+        return
     for i in range(len(case["calls"]) - 1, -1, -1):
         c = copy.deepcopy(case)
         del c["calls"][i]
